@@ -670,11 +670,14 @@ func c13CloseSend(p *c13Plan, res *c13Res, conn *tds.Conn, ch *tds.Channel) {
 	sender := simrt.Spawn("sender", func() {
 		for i := 0; i < p.Sends; i++ {
 			senderIn = true
+			call := simrt.Record("send-call", "", "", 0)
+			closedBefore := res.closeDone && res.closeRet > 0 && call > res.closeRet
 			err := ch.SendPackage(bg, &tds.LanguagePackage{Cmd: fmt.Sprintf("msg%d", i)})
 			senderIn = false
-			seq := simrt.Record("send-ret", "", "", 0)
-			if res.closeDone && res.closeRet > 0 && seq > res.closeRet && err == nil && i > 0 {
+			simrt.Record("send-ret", "", "", 0)
+			if closedBefore && err == nil {
 				// a send that started after Close returned must fail; one that overlapped may do either
+				res.violate("no-closed-error", "close-send: a send that started after Close had returned succeeded", "SendPackage #%d was called after Close had returned and returned nil", i)
 			}
 			if err != nil && !errors.Is(err, tds.ErrChannelClosed) {
 				// other errors are not expected here: the transport is healthy
